@@ -118,6 +118,16 @@ func ProfileFor(prop string) *Config {
 		if prop == "C19n" {
 			cfg.Gen.ForceRedaction = 1
 		}
+	case "C07":
+		cfg.Gen.NoTruncation = true
+		cfg.Gen.RichLocalization = true
+		cfg.Allow.Assets = true
+		cfg.Oracles = []Oracle{C07{}}
+	case "C18":
+		cfg.Gen.NoTruncation = true
+		cfg.Gen.RichLocalization = true
+		cfg.Allow.Assets = true
+		cfg.Oracles = []Oracle{C18{}, C07{}}
 	case "C10":
 		cfg.Fork = true
 	case "C20":
